@@ -175,6 +175,9 @@ class Lines:
             b = rng.choice([None] + list(range(-12, 13)))
             c = rng.choice([None, 1, 2, 3, 4])
             self.add(f"slice {n} {enc_opt(a)} {enc_opt(b)} {enc_opt(c)}", fmt(range(*slice(a, b, c).indices(n))), "C03/lean/slice")
+        for n in range(1, 9):
+            for i in range(-n, n):  # the int rewriting of __getitem__ selects torch's row for every valid int
+                self.add(f"intslice {n} {i}", str(i % n), "C03/lean/intslice")
         for bt in (0, 1):
             for r in (0, 1):
                 for c in (0, 1):
